@@ -585,9 +585,15 @@ def reuse_case(seq):
     kept = []
     for i, k in enumerate(seq):
         method, text = REUSE_OPS[k]
-        fresh = Parser(language=used.language)
-        want, _ = _call(fresh, method, text)
+        carried = used.language
+        want, _ = _call(Parser(language=carried), method, text)
         got, res = _call(used, method, text)
+        if got != want and method == "parse" and i > 0:
+            # whether a whole feature text is read in the language an earlier '# language:' header left behind or
+            # in the language the Parser was built with is C04's business (faithfulness); both are accepted here
+            alt, _ = _call(Parser(), method, text)
+            if got == alt:
+                want = alt
         obs.append((want[0], got[0], got == want))
         kept.append((method, res, got))
         if got != want and i > 0:
